@@ -482,6 +482,53 @@ pub fn units() -> Vec<Unit> {
             IoMode(false),
         ],
     },
+    // ---- builder P (tie A for the SX127x command encoders; continues builder O): the variant functions of
+    // `Sx1276` / `Sx1272` and the `RadioKind` methods of `Sx127x` that call them, `C` fixed per unit
+    Unit {
+        module: "Gen.PhyEnc1276",
+        file: "lora-phy/src/sx127x/mod.rs",
+        more_files: vec!["lora-phy/src/sx127x/sx1276.rs", "lora-phy/src/sx127x/radio_kind_params.rs", "lora-phy/src/mod_params.rs", "lora-modulation/src/lib.rs"],
+        imports: vec!["LoraVerif.RtPhy", "LoraVerif.Gen.PhyCodes127", "LoraVerif.Gen.PhyErr"],
+        items: vec![
+            ExternUnit("Gen.PhyCodes127"),
+            ExternUnit("Gen.PhyErr"),
+            Struct("ModulationParams"),
+            Struct("PacketParams"),
+            Struct("Sx1276"),
+            Struct("Sx1276Data"),
+            Alias("C", "Sx1276"),
+            Alias("C::Data", "Sx1276Data"),
+            Struct("Config"),
+            StructPartial("Sx127x", &["config", "data"]),
+            IoMode(true),
+            TraitFn("RadioKind", "Sx127x", "set_tx_power_and_ramp_time"),
+            TraitFn("RadioKind", "Sx127x", "set_modulation_params"),
+            TraitFn("RadioKind", "Sx127x", "set_packet_params"),
+            Fn("Sx127x::set_lora_symbol_num_timeout"),
+            IoMode(false),
+        ],
+    },
+    Unit {
+        module: "Gen.PhyEnc1272",
+        file: "lora-phy/src/sx127x/mod.rs",
+        more_files: vec!["lora-phy/src/sx127x/sx1272.rs", "lora-phy/src/sx127x/radio_kind_params.rs", "lora-phy/src/mod_params.rs", "lora-modulation/src/lib.rs"],
+        imports: vec!["LoraVerif.RtPhy", "LoraVerif.Gen.PhyCodes127", "LoraVerif.Gen.PhyErr"],
+        items: vec![
+            ExternUnit("Gen.PhyCodes127"),
+            ExternUnit("Gen.PhyErr"),
+            Struct("ModulationParams"),
+            Struct("PacketParams"),
+            Struct("Sx1272"),
+            Alias("C", "Sx1272"),
+            Struct("Config"),
+            StructPartial("Sx127x", &["config"]),
+            IoMode(true),
+            TraitFn("RadioKind", "Sx127x", "set_tx_power_and_ramp_time"),
+            TraitFn("RadioKind", "Sx127x", "set_modulation_params"),
+            TraitFn("RadioKind", "Sx127x", "set_packet_params"),
+            IoMode(false),
+        ],
+    },
     // ---- builder N (tie A for more stateful methods)
     // C11: `Otaa::handle_rx` — the join step.  The crypto stays abstract: the radio buffer is what
     // `check_mic_and_decrypt_in_place` yields on it under a key (`none` = `Err`), the decrypted view exposes
